@@ -13,7 +13,8 @@
 (***************************************************************************)
 EXTENDS Naturals, Sequences, TLC, Json, IOUtils
 
-NameKinds  == {"msgBoth", "msgFilesOnly", "enum", "service", "field", "none"}
+\* msgRequired: a proto2 message type with required fields (known to both global registries)
+NameKinds  == {"msgBoth", "msgRequired", "msgFilesOnly", "enum", "service", "field", "none"}
 UrlForms   == {"slash", "host", "bare", "empty", "onlyslash", "trailing", "doubleslash"}
 ValueKinds == {"valid", "other", "truncated", "garbage", "empty"}
 Cfgs       == {"default", "emptyTypes", "customFiles", "customBoth"}
@@ -31,7 +32,7 @@ UsesGlobalFiles(cfg) == cfg \in {"default", "emptyTypes"}
 \* result of the type registry: "msg", "wrongtype" (an error other than NotFound) or "notfound"
 TypesResult(kind, form, cfg) ==
     IF TypesLookupName(form) # "name" \/ ~UsesGlobalTypes(cfg) THEN "notfound"
-    ELSE CASE kind = "msgBoth" -> "msg"
+    ELSE CASE kind \in {"msgBoth", "msgRequired"} -> "msg"
            [] kind = "enum" -> "wrongtype"
            [] OTHER -> "notfound"
 
@@ -39,14 +40,16 @@ TypesResult(kind, form, cfg) ==
 FilesResult(kind, form, cfg) ==
     IF FilesLookupName(form) # "name" THEN "notfound"
     ELSE IF UsesGlobalFiles(cfg)
-         THEN CASE kind = "msgBoth" -> "msg"
+         THEN CASE kind \in {"msgBoth", "msgRequired"} -> "msg"
                 [] kind \in {"enum", "service", "field"} -> "nonmsg"
                 [] OTHER -> "notfound"
          ELSE IF kind = "msgFilesOnly" THEN "msg" ELSE "notfound"
 
-ValueOutcome(value) == CASE value \in {"valid", "empty"} -> "ok"
-                         [] value = "other" -> "either"
-                         [] OTHER -> "err"
+\* an empty value is the empty message -- which is invalid for a type with required fields
+ValueOutcome(kind, value) == CASE value = "empty" /\ kind = "msgRequired" -> "err"
+                               [] value \in {"valid", "empty"} -> "ok"
+                               [] value = "other" -> "either"
+                               [] OTHER -> "err"
 
 \* anypb.Any.MessageIs: the URL must end in "/name" or be exactly the name
 UrlNamesType(form) == form \in {"slash", "host", "bare", "doubleslash"}
@@ -54,10 +57,10 @@ UrlNamesType(form) == form \in {"slash", "host", "bare", "doubleslash"}
 Unpack(kind, form, value, cfg) ==
     LET t == TypesResult(kind, form, cfg)
     IN CASE t = "wrongtype" -> "err"
-         [] t = "msg" -> IF UrlNamesType(form) THEN ValueOutcome(value) ELSE "err"
+         [] t = "msg" -> IF UrlNamesType(form) THEN ValueOutcome(kind, value) ELSE "err"
          [] OTHER ->
               LET f == FilesResult(kind, form, cfg)
-              IN IF f = "msg" THEN (IF UrlNamesType(form) THEN ValueOutcome(value) ELSE "err")
+              IN IF f = "msg" THEN (IF UrlNamesType(form) THEN ValueOutcome(kind, value) ELSE "err")
                  ELSE "err"            \* not found, or found something that is not a message: an error, never a panic
 
 \* which implementation path serves the request (for coverage of both paths and their agreement)
